@@ -115,6 +115,13 @@ type workerOut struct {
 	Level       string            `json:"level"`
 }
 
+func genInput(p *Prop, i int, r *Rand, tier string) interface{} {
+	if p.GenIndexed != nil {
+		return p.GenIndexed(i, r, tier)
+	}
+	return p.Gen(r, tier)
+}
+
 func genMeta(r *Rand) caseMeta {
 	m := caseMeta{SwitchDen: r.Pick(1, 1, 2, 4, 10, 30), ArmSeed: r.Uint64()}
 	m.ArmPct = r.Pick(0, 0, 0, 5, 20, 50)
@@ -206,7 +213,7 @@ func workerRun(t *testing.T) {
 		seed := RunSeed(vseed, id, i)
 		gr := NewRand(seed)
 		meta := genMeta(gr)
-		in := p.Gen(gr, tier)
+		in := genInput(p, i, gr, tier)
 		ch := &chooser{mode: modeGen, rng: NewRand(mix(seed, 0x5eed)), switchDen: meta.SwitchDen}
 		inJSON := mustJSON(in)
 		cr := execCase(t, p, in, meta, ch, tier, false)
@@ -368,7 +375,7 @@ func workerHashes(t *testing.T) {
 		seed := RunSeed(vseed, id, i)
 		gr := NewRand(seed)
 		meta := genMeta(gr)
-		in := p.Gen(gr, tier)
+		in := genInput(p, i, gr, tier)
 		ch := &chooser{mode: modeGen, rng: NewRand(mix(seed, 0x5eed)), switchDen: meta.SwitchDen}
 		cr := execCase(t, p, in, meta, ch, tier, false)
 		outcome := "ok"
